@@ -3,13 +3,14 @@ import re, os
 _here = os.path.dirname(os.path.abspath(__file__))
 X86FMT = ['asmjit/x86/x86formatter.cpp', 'asmjit/core/formatter.cpp', 'asmjit/core/string.cpp']
 UNITS = [
-    Unit('x86op', harness=['h_x86fmt.cpp'], repo_units=X86FMT, extra_c=['verif_printf.c'], wrap=['malloc', 'realloc']),
-    Unit('x86mem', harness=['h_x86mem.cpp'], repo_units=X86FMT, extra_c=['verif_printf.c'], wrap=['malloc', 'realloc']),
+    Unit('x86op', harness=['h_x86fmt.cpp'], repo_units=X86FMT, extra_c=['verif_printf.c'], wrap=['malloc', 'realloc'], cbmc_defines=['VERIF_DIVC', 'VERIF_MEM_LOOPS']),
+    Unit('x86mem', harness=['h_x86mem.cpp'], repo_units=X86FMT, extra_c=['verif_printf.c'], wrap=['malloc', 'realloc'], cbmc_defines=['VERIF_DIVC', 'VERIF_MEM_LOOPS']),
+    Unit('x86line', harness=['h_x86line.cpp'], repo_units=X86FMT, extra_c=['verif_printf.c'], wrap=['malloc', 'realloc'], cbmc_defines=['VERIF_DIVC', 'VERIF_MEM_LOOPS', 'VERIF_MEM_LOOPS_ALL']),
 ]
 def _fns(src):
     return re.findall(r'^HARNESS (h_\w+)\(\)', open(os.path.join(_here, src)).read(), re.M)
 HARNESSES = []
-for unit, src in (('x86op', 'h_x86fmt.cpp'), ('x86mem', 'h_x86mem.cpp')):
+for unit, src in (('x86op', 'h_x86fmt.cpp'), ('x86mem', 'h_x86mem.cpp')):   # ('x86line', 'h_x86line.cpp'): no verdict yet, see the notes in that file
   for fn in _fns(src):
     wide = fn.endswith('_wide') or fn.endswith('imm_32')
     HARNESSES.append(Harness(unit, fn, unwind=18, mem_gb=6, timeout=900 if not wide else 3600, tiers=('thorough',) if wide else ('quick', 'thorough'),
